@@ -219,7 +219,13 @@ impl Node {
     }
 
     /// Recursively loads classes and merges loaded data into self
-    fn render_impl(&mut self, r: &Reclass, seen: &mut Vec<String>, root: &mut Node) -> Result<()> {
+    fn render_impl(
+        &mut self,
+        r: &Reclass,
+        seen: &mut Vec<String>,
+        loading: &mut Vec<String>,
+        root: &mut Node,
+    ) -> Result<()> {
         for cls in self.classes.items_iter() {
             let cls = if cls.contains("${") {
                 // Resolve any potential references if the class name contains an opening reference
@@ -253,6 +259,15 @@ impl Node {
                 continue;
             }
 
+            // A class which (transitively) includes itself would make us recurse forever. Report
+            // such include loops as an error.
+            if loading.contains(&cls) {
+                return Err(anyhow!(
+                    "Detected class include loop: {} -> {cls}",
+                    loading.join(" -> ")
+                ));
+            }
+
             // Load class, respecting the `ignore_class_notfound` option
             let maybec = self.read_class(r, &cls);
             let Ok(Some(mut c)) = maybec else {
@@ -265,7 +280,9 @@ impl Node {
             };
 
             // render class so we pick up further classes included in it
-            c.render_impl(r, seen, root)?;
+            loading.push(cls.clone());
+            c.render_impl(r, seen, loading, root)?;
+            loading.pop();
             // NOTE(sg): we don't need to merge here, since we've already mergeed into root as part
             // of the recursive call to `render_impl()`
 
@@ -312,9 +329,10 @@ impl Node {
             .insert("_reclass_".into(), self.meta.as_reclass(&r.config)?.into())?;
 
         let mut seen = vec![];
+        let mut loading = vec![];
         let mut root = Node::default();
-        base.render_impl(r, &mut seen, &mut root)?;
-        self.render_impl(r, &mut seen, &mut base)?;
+        base.render_impl(r, &mut seen, &mut loading, &mut root)?;
+        self.render_impl(r, &mut seen, &mut loading, &mut base)?;
         self.render_parameters()
     }
 }
